@@ -319,6 +319,11 @@ func archive(workerID string, seed *models.Item) {
 						io.Copy(io.Discard, resp.Body)
 						resp.Body.Close()
 
+						// This response is recorded too: wait for its WARC records like for a successful one
+						if !config.Get().WARCWriteAsync {
+							<-feedbackChan
+						}
+
 						time.Sleep(retrySleepTime)
 						continue
 					} else {
@@ -328,6 +333,11 @@ func archive(workerID string, seed *models.Item) {
 						// Consume body, needed to avoid leaking RAM & storage
 						io.Copy(io.Discard, resp.Body)
 						resp.Body.Close()
+
+						// This response is recorded too: wait for its WARC records like for a successful one
+						if !config.Get().WARCWriteAsync {
+							<-feedbackChan
+						}
 
 						return
 					}
